@@ -198,7 +198,16 @@ fn check_classes(pattern: &str, regex_type: RegexType) -> Result<(), Box<dyn Err
                             &inner[1 + end + 2..]
                         }
                         Some(delim @ ('.' | '=')) => match inner[1..].find(&format!("{delim}]")) {
-                            Some(end) => &inner[1 + end + 2..],
+                            // (it names one character: no other collating
+                            // elements are known)
+                            Some(end) if inner[1..1 + end].chars().count() == 1 => {
+                                &inner[1 + end + 2..]
+                            }
+                            Some(_) => {
+                                return Err(From::from(format!(
+                                    "Invalid collation character in regular expression {pattern:?}"
+                                )))
+                            }
                             None => {
                                 return Err(From::from(format!(
                                     "Unmatched [{delim} in regular expression {pattern:?}"
@@ -502,6 +511,22 @@ fn inside_group(pattern: &str, regex_type: RegexType) -> String {
                     result.push(member);
                     if member == ']' {
                         break;
+                    }
+                    if member == '[' {
+                        // A collating symbol "[.x.]" or an equivalence class
+                        // "[=x=]" stands for the character it names; the engine
+                        // has neither construct.  (One that names a character
+                        // with a meaning of its own here is left as it is.)
+                        let mut ahead = chars.clone();
+                        let named = [ahead.next(), ahead.next(), ahead.next(), ahead.next()];
+                        if let [Some(delim @ ('.' | '=')), Some(only), Some(end), Some(']')] = named {
+                            if end == delim && !matches!(only, ']' | '^' | '-' | '[' | '\\' | ':') {
+                                result.pop();
+                                result.push(only);
+                                chars = ahead;
+                                continue;
+                            }
+                        }
                     }
                     if classes && member == '[' && chars.peek() == Some(&':') {
                         let mut class = String::new();
